@@ -161,6 +161,8 @@ Values(evs) == FoldLeft(BStep, BInit, evs).out
 (*   "fffd"      JSON replaces invalid UTF-8 by U+FFFD                     *)
 (*   "nonfin"    non-finite floats may be written as null                  *)
 (*   "ubjH"      UBJSON carries integers above MaxInt64 as decimal strings *)
+(*   "anyorder"  member order is not compared at all (two runs over Go maps, *)
+(*               whose iteration order is random)                           *)
 (*   "nan"       NaN payloads are not compared (Go values pass through      *)
 (*               reflect's float64 view, which quietens signalling NaNs)    *)
 (* Integer width, announced lengths and element types are not part of a    *)
@@ -196,7 +198,7 @@ Equiv(R, a, b) ==
   CASE a.k = "arr" -> b.k = "arr" /\ Len(a.v) = Len(b.v)
                       /\ \A j \in 1..Len(a.v) : Equiv(R, a.v[j], b.v[j])
     [] a.k = "obj" -> b.k = "obj" /\ Len(a.v) = Len(b.v)
-                      /\ IF a.unord \/ b.unord
+                      /\ IF a.unord \/ b.unord \/ "anyorder" \in R
                          THEN /\ \A j \in 1..Len(a.v) : \E m \in 1..Len(b.v) :
                                    a.v[j].key = b.v[m].key /\ Equiv(R, a.v[j].val, b.v[m].val)
                               /\ \A m \in 1..Len(b.v) : \E j \in 1..Len(a.v) : a.v[j].key = b.v[m].key
